@@ -168,6 +168,22 @@ def case_roundtrip(case):
             got, want = float(cp.get(L).value), orig[L]
             if ulps(got, want) > 8:
                 vs.append(V("restore-from-history-not-identity", label=L, kind=kind, got=got, want=want))
+    # history of constructions: a second, newer parameter set with other values exists while the first makes the trip
+    with warnings.catch_warnings():
+        warnings.simplefilter("ignore")
+        bystander = params.copy()
+        for p in bystander.all():
+            if p.expression is None and p.vary:
+                p.value = 0.5 * p.value + 0.125
+        bystander.update_parameter_expression()
+        lab, val, _, _ = params.get_label_value_and_bounds_arrays(exclude_non_vary=True)
+        params.set_from_label_and_value_arrays(list(lab), np.asarray(val))
+    for L in labels:
+        kind = case["params"][labels.index(L)][0]
+        got, want = float(params.get(L).value), orig[L]
+        lim = 1e-9 * max(abs(want), 1e-300) if kind == "expr" or KINDS[kind].get("non_negative") else 0.0
+        if not abs(got - want) <= lim:
+            vs.append(V("round-trip-not-identity-while-another-parameter-set-exists", label=L, kind=kind, got=got, want=want))
     kinds = sorted({k for k, _ in case["params"]})
     return core.ok(key=case["params"] + [case.get("style", 0)] if kinds != ["free"] else None, outcome=[len(vs)], violations=vs)
 
